@@ -339,6 +339,24 @@ func checkC03(c *vlib.Ctx) (string, string) {
 		}
 	}
 	c.States.Add(int64(len(structured)))
+	// every byte value inserted at, and substituted into, every position of origins that the configurations allow
+	// (byte-class tables have 256 entries; the regular families above reach 18 of them)
+	var byteVals []string
+	for _, base := range []string{"https://a.b", "https://x.a.b", "https://b.a:8080", "http://1.2.3.4:8", "http://[::1]:80", "ab://c:1", "https://x.g.h:8", "https://x.c.d."} {
+		for pos := 0; pos <= len(base); pos++ {
+			for b := 0; b < 256; b++ {
+				byteVals = append(byteVals, base[:pos]+string([]byte{byte(b)})+base[pos:], base[:pos]+string([]byte{byte(b)})+base[min(pos+1, len(base)):])
+			}
+		}
+	}
+	c.ParRange(int64(len(byteVals)), 256, "C03 single-byte variations", func(i int64) {
+		rec := vlib.NewRec()
+		for _, r := range shapes(byteVals[i])[:2] {
+			try(rec, r)
+		}
+	})
+	c.States.Add(int64(len(byteVals)))
+	c.Set("single_byte_variations", len(byteVals))
 	// (B) request-shape-focused
 	reps := []string{"https://a.b", "https://x.a.b", "https://b.a:8080", "http://1.2.3.4", "http://[::1]", "ab://c", "https://xa.b", "https://a.b:8443", "http://a.b", "https://a.b.evil", "null", "https://a.b/", "https://[a.b]", "", "garbage", "https://A.B"}
 	methods := []string{"GET", "OPTIONS", "PUT", "get", "options", "HEAD"}
